@@ -371,8 +371,9 @@ fn long_inputs(rng: &mut StdRng, thorough: bool) -> Vec<(u8, u8, usize, Vec<u8>)
     }
     // heads made of minimal header lines (3 bytes each), array exactly as long as the line count,
     // nothing after the head; and more header lines than any fixed small limit
-    for (n, cap) in [(24usize, 24usize), (200, 200), (40000, 40000), (33000, 33001)] {
-        if n > 1000 && !thorough && n != 40000 { continue; }
+    // (66 000 > 2^16, 132 000 > 2^17: counters and offsets kept in a narrower integer wrap there)
+    for (n, cap) in [(24usize, 24usize), (200, 200), (66000, 66000), (33000, 33001), (40000, 40000), (132000, 132000)] {
+        if n > 1000 && !thorough && n != 66000 { continue; }
         let mut h: Vec<u8> = Vec::new();
         for _ in 0..n { h.extend_from_slice(b"a:\n"); }
         h.push(b'\n');
@@ -759,4 +760,136 @@ pub fn cmd_scan(args: &[String]) {
         }
     }
     println!("{{\"events\":{},\"calls\":{},\"backends\":{:?},\"provider\":\"{}\"}}", events, calls, backends_seen, httparse::verif::provider());
+}
+
+// ---------------------------------------------------------------- config builder histories
+const PROBES: [(u8, &[u8]); 12] = [
+    (K_REQ, b"GET  / HTTP/1.1\r\n\r\n"),
+    (K_RESP, b"HTTP/1.1  200 OK\r\n\r\n"),
+    (K_RESP, b"HTTP/1.1 200 OK\r\nA : b\r\n\r\n"),
+    (K_RESP, b"HTTP/1.1 200 OK\r\nA: b\r\n c\r\n\r\n"),
+    (K_REQ, b"GET / HTTP/1.1\r\n A: b\r\n\r\n"),
+    (K_RESP, b"HTTP/1.1 200 OK\r\n A: b\r\n\r\n"),
+    (K_REQ, b"GET / HTTP/1.1\r\nA B: c\r\nD: e\r\n\r\n"),
+    (K_RESP, b"HTTP/1.1 200 OK\r\nA B: c\r\nD: e\r\n\r\n"),
+    (K_REQ, b"GET / HTTP/1.1\r\nA: b\r\n\r\n"),
+    (K_REQ, b"GET / HTTP/1.1\r\nA : b\r\n c\r\n\r\n"),
+    (K_RESP, b"HTTP/1.1 200  OK\r\n\tA : b\r\n\tc\r\nX Y\r\n\r\n"),
+    (K_REQ, b"GET   /  HTTP/1.1\r\n\tA: b\r\nX Y\r\n\r\n"),
+];
+
+fn probe_json(cfg: &httparse::ParserConfig, pi: usize) -> String {
+    let (kind, b) = PROBES[pi];
+    let mut hs = [httparse::EMPTY_HEADER; 16];
+    let (st, n, err, hc) = if kind == K_REQ {
+        let mut r = httparse::Request::new(&mut hs);
+        match cfg.parse_request(&mut r, b) {
+            Ok(httparse::Status::Complete(n)) => (1, n, 0, r.headers.len()),
+            Ok(httparse::Status::Partial) => (0, 0, 0, 0),
+            Err(e) => (2, 0, err_id_pub(e), 0),
+        }
+    } else {
+        let mut r = httparse::Response::new(&mut hs);
+        match cfg.parse_response(&mut r, b) {
+            Ok(httparse::Status::Complete(n)) => (1, n, 0, r.headers.len()),
+            Ok(httparse::Status::Partial) => (0, 0, 0, 0),
+            Err(e) => (2, 0, err_id_pub(e), 0),
+        }
+    };
+    format!("{{\"ev\":\"probe\",\"kind\":{},\"b\":[{}],\"st\":{},\"n\":{},\"err\":{},\"hc\":{}}}",
+        kind, b.iter().map(|x| x.to_string()).collect::<Vec<_>>().join(","), st, n, err, hc)
+}
+
+fn set_opt(c: &mut httparse::ParserConfig, o: usize, v: bool) {
+    match o {
+        0 => { c.allow_multiple_spaces_in_request_line_delimiters(v); }
+        1 => { c.allow_multiple_spaces_in_response_status_delimiters(v); }
+        2 => { c.allow_spaces_after_header_name_in_responses(v); }
+        3 => { c.allow_obsolete_multiline_headers_in_responses(v); }
+        4 => { c.allow_space_before_first_header_name(v); }
+        5 => { c.ignore_invalid_headers_in_requests(v); }
+        _ => { c.ignore_invalid_headers_in_responses(v); }
+    }
+}
+
+fn get_opt(c: &httparse::ParserConfig, o: usize) -> Option<bool> {
+    match o {
+        0 => Some(c.multiple_spaces_in_request_line_delimiters_are_allowed()),
+        1 => Some(c.multiple_spaces_in_response_status_delimiters_are_allowed()),
+        3 => Some(c.obsolete_multiline_headers_in_responses_are_allowed()),
+        4 => Some(c.space_before_first_header_name_are_allowed()),
+        _ => None,
+    }
+}
+
+/// histories of the ParserConfig builder: default / setters (also chained) / clone / swap,
+/// observed through the getters and through probe messages
+pub fn cmd_config(args: &[String]) {
+    let out = arg(args, "--out").unwrap();
+    let seed: u64 = arg(args, "--seed").and_then(|s| s.parse().ok()).unwrap_or(0);
+    let sessions: usize = arg(args, "--sessions").and_then(|s| s.parse().ok()).unwrap_or(500);
+    let shards: usize = arg(args, "--shards").and_then(|s| s.parse().ok()).unwrap_or(1);
+    let mut rng = StdRng::seed_from_u64(seed ^ 0xc0f1);
+    let mut ws: Vec<BufWriter<std::fs::File>> = (0..shards).map(|i| BufWriter::new(std::fs::File::create(format!("{}.{}", out, i)).unwrap())).collect();
+    let mut events = 0u64;
+    for si in 0..sessions {
+        let w = &mut ws[si % shards];
+        let mut c = httparse::ParserConfig::default();
+        let mut saved = httparse::ParserConfig::default();
+        // every history starts from the model's initial state: two default values
+        writeln!(w, "{{\"ev\":\"history\"}}").unwrap();
+        events += 1;
+        // the first 2 * 7 * 12 sessions are systematic: one setter from default, every probe
+        let steps = if si < 168 { 1 } else { rng.gen_range(1..=10) };
+        for k in 0..steps {
+            let what = if si < 168 { 0 } else { rng.gen_range(0..10) };
+            match what {
+                0..=5 => {
+                    let (o, v) = if si < 168 { ((si / 12) % 7, si / 84 == 0) } else { (rng.gen_range(0..7usize), rng.gen_bool(0.6)) };
+                    set_opt(&mut c, o, v);
+                    writeln!(w, "{{\"ev\":\"set\",\"o\":{},\"v\":{}}}", o, v as u8).unwrap();
+                    if what == 5 {
+                        // chained setters: the builder returns &mut Self
+                        let o2 = rng.gen_range(0..7usize);
+                        let v2 = rng.gen_bool(0.5);
+                        match o2 {
+                            0 => { c.allow_space_before_first_header_name(v).allow_multiple_spaces_in_request_line_delimiters(v2); }
+                            1 => { c.allow_space_before_first_header_name(v).allow_multiple_spaces_in_response_status_delimiters(v2); }
+                            2 => { c.allow_space_before_first_header_name(v).allow_spaces_after_header_name_in_responses(v2); }
+                            3 => { c.allow_space_before_first_header_name(v).allow_obsolete_multiline_headers_in_responses(v2); }
+                            4 => { c.allow_multiple_spaces_in_request_line_delimiters(v).allow_space_before_first_header_name(v2); }
+                            5 => { c.allow_space_before_first_header_name(v).ignore_invalid_headers_in_requests(v2); }
+                            _ => { c.allow_space_before_first_header_name(v).ignore_invalid_headers_in_responses(v2); }
+                        }
+                        let first = if o2 == 4 { 0 } else { 4 };
+                        writeln!(w, "{{\"ev\":\"set\",\"o\":{},\"v\":{}}}", first, v as u8).unwrap();
+                        writeln!(w, "{{\"ev\":\"set\",\"o\":{},\"v\":{}}}", o2, v2 as u8).unwrap();
+                        events += 2;
+                    }
+                }
+                6 => { saved = c.clone(); writeln!(w, "{{\"ev\":\"clone\"}}").unwrap(); }
+                7 => { std::mem::swap(&mut c, &mut saved); writeln!(w, "{{\"ev\":\"swap\"}}").unwrap(); }
+                8 => { c = httparse::ParserConfig::default(); writeln!(w, "{{\"ev\":\"default\"}}").unwrap(); }
+                _ => { c = c.clone(); writeln!(w, "{{\"ev\":\"set\",\"o\":0,\"v\":{}}}", c.multiple_spaces_in_request_line_delimiters_are_allowed() as u8).unwrap(); }
+            }
+            events += 1;
+            // observe: getters, then probes
+            for o in 0..7 {
+                if let Some(v) = get_opt(&c, o) {
+                    if si < 168 || rng.gen_bool(0.5) {
+                        writeln!(w, "{{\"ev\":\"get\",\"o\":{},\"v\":{}}}", o, v as u8).unwrap();
+                        events += 1;
+                    }
+                }
+            }
+            let np = if si < 168 { 1 } else { rng.gen_range(1..=3) };
+            for j in 0..np {
+                let pi = if si < 168 { si % 12 } else { rng.gen_range(0..PROBES.len()) };
+                let _ = (j, k);
+                writeln!(w, "{}", probe_json(&c, pi)).unwrap();
+                events += 1;
+            }
+        }
+    }
+    println!("{{\"sessions\":{},\"events\":{}}}", sessions, events);
 }
